@@ -8,6 +8,7 @@ import RtenVerif.Lemmas.WF
 import RtenVerif.Lemmas.Broadcast
 import RtenVerif.Lemmas.Squeeze
 import RtenVerif.Lemmas.RowMajor
+import RtenVerif.Lemmas.Clip
 
 /-!
 # C09 — Layout transformations match a reference array model
@@ -871,6 +872,92 @@ theorem c09_reshaped (t : TState) (shape : List Nat) :
     have hn' : ¬ numel shape = numel (sizes t.view.dims) := hn
     rw [if_neg hn']
     rfl
+
+/-! ## T4: `clip_dim` on an owned tensor -/
+
+theorem strides_getD (d : Dims) (k : Nat) : (strides d).getD k 0 = (d.getD k (0, 0)).2 := by
+  induction k generalizing d with
+  | zero => cases d <;> simp [strides]
+  | succ k ih =>
+    cases d with
+    | nil => simp [strides]
+    | cons q qs =>
+      have := ih qs
+      simp only [strides] at this ⊢
+      simp only [List.map_cons, List.getD_cons_succ, this]
+
+theorem materialize_owned (t : TState) (hb : t.view.base = 0) (hl : t.view.len = t.store.length)
+    (hno : mayOverlap t.view.dims = false) (hwf : WF t.view) :
+    materialize t = .ok ⟨t.store, ⟨0, t.store.length, t.view.dims⟩⟩ := by
+  unfold materialize
+  unfold WF at hwf
+  have hw : (t.store.drop t.view.base).take t.view.len = t.store := by
+    rw [hb, hl, List.drop_zero, List.take_length]
+  simp only [hw, hno, Bool.false_eq_true, if_false]
+  rw [if_neg (by omega)]
+
+/-- **C09.T4 clip_dim** (owned tensor: data starts at 0, window = whole `Vec`, no internal
+overlap, storage covers the layout): when `clip_dim` returns, the tensor holds exactly the
+reference range of the axis — every retained element is preserved, in place order.
+(`copy_within(range, 0)` + `truncate` is modelled as `drop`/`take` of the `Vec`.) -/
+theorem c09_clip_dim (t t' : TState) (axis start stop : Nat)
+    (hb : t.view.base = 0) (hl : t.view.len = t.store.length)
+    (hno : mayOverlap t.view.dims = false) (hwf : WF t.view)
+    (h : clipDim t axis start stop = .ok t') :
+    t.arr.sliceAxis axis start stop = .ok t'.arr := by
+  unfold clipDim at h
+  rw [materialize_owned t hb hl hno hwf] at h
+  simp only [bind, Except.bind] at h
+  by_cases hk : axis ≥ t.view.dims.length
+  · rw [if_pos hk] at h; cases h
+  · rw [if_neg hk] at h
+    rw [sizes_getD] at h
+    by_cases hbad : ¬ (start ≤ stop) ∨ ¬ (stop ≤ (t.view.dims.getD axis (0, 0)).1)
+    · rw [if_pos hbad] at h; cases h
+    · rw [if_neg hbad] at h
+      have hk' : axis < t.view.dims.length := by omega
+      obtain ⟨v', hw, hden, _, hbnd⟩ :=
+        axis_select t.view axis start (stop - start) (fun i => t.store.getD i 0) hk' (by omega) hwf
+      have hv' := window_ok_eq _ _ _ _ _ hw
+      -- reference side
+      unfold NArr.sliceAxis
+      have hr : t.arr.rank = t.view.dims.length := by simp [NArr.rank, TState.arr, denote]
+      have hsh : t.arr.shape = sizes t.view.dims := rfl
+      rw [hr, hsh, sizes_getD, if_pos ⟨hk', by omega, by omega⟩]
+      congr 1
+      show NArr.gather _ (denote t.view fun i => t.store.getD i 0) = _
+      rw [← hden, hv']
+      rw [strides_getD, resizeDim_stride] at h
+      by_cases he : numelD (resizeDim t.view.dims axis (stop - start)) = 0
+      · simp only [he, if_true] at h
+        rw [if_neg (by omega)] at h
+        simp only [pure, Except.pure] at h
+        injection h with h
+        subst h
+        unfold TState.arr denote
+        apply NArr.ofFn_congr
+        intro idx hidx
+        exfalso
+        have hpos : 0 < numel (sizes (resizeDim t.view.dims axis (stop - start))) :=
+          numel_pos_of_valid hidx
+        unfold numelD at he
+        omega
+      · simp only [he, if_false] at h
+        split at h
+        · cases h
+        · simp only [pure, Except.pure] at h
+          injection h with h
+          subst h
+          rename_i hlen
+          unfold TState.arr denote
+          simp only [if_neg he]
+          apply NArr.ofFn_congr
+          intro idx hidx
+          have hoff := offset_lt_minDataLen _ idx hidx
+          symm
+          rw [getD_take_drop _ _ _ _ (by omega), hb, Nat.mul_comm start]
+          congr 1
+          omega
 
 /-! ## T2: chains of operations compose -/
 
